@@ -120,6 +120,12 @@ type P17 struct {
 	Z *string `json:"z"`
 }
 
+// P18 refers to itself, which a Go struct can only do through a pointer.
+type P18 struct {
+	V    int64 `json:"v"`
+	Next *P18  `json:"next"`
+}
+
 type P9 struct {
 	FieldByName int64
 	Other       string `json:"other,omitempty"`
@@ -163,6 +169,8 @@ func buildStruct(name, id string, props map[string]*schema.PropertySchema) *sche
 		return schema.NewStructMappedObjectSchema[P13](id, props)
 	case "P14":
 		return schema.NewStructMappedObjectSchema[P14](id, props)
+	case "P18":
+		return schema.NewStructMappedObjectSchema[P18](id, props)
 	case "P15":
 		return schema.NewStructMappedObjectSchema[P15](id, props)
 	case "P16":
@@ -212,6 +220,8 @@ func ZeroStruct(name string) any {
 		return P13{}
 	case "P14":
 		return P14{}
+	case "P18":
+		return P18{}
 	case "P15":
 		return P15{}
 	case "P16":
